@@ -722,8 +722,8 @@ type SConn struct {
 
 func NewSrvSys(x *Ctx, ops interface{}, fs *ScriptFS, msize uint32, dotu bool, maxpend int, debug int) *SrvSys {
 	srv := &go9p.Srv{Msize: msize, Dotu: dotu, Debuglevel: debug, Maxpend: maxpend, Upool: newSUsers(), Id: "sim"}
-	if debug != 0 {
-		srv.Log = go9p.NewLogger(64)
+	if debug != 0 && x.C.Seed%2 == 0 {
+		srv.Log = go9p.NewLogger(64) // (the other half of the cases leaves the logger to the server, as most programs do)
 	}
 	if !srv.Start(ops) {
 		x.Trouble("Srv.Start refused the scripted implementation")
